@@ -17,6 +17,7 @@
                    order, each from its own attribute.
  R6 band test    : is_in_band keeps a channel iff its slot edges f -/+ sw/2 lie within [f_min, f_max] (non strict).
  Rm memo          : every memoisation construct in the functions behind this property is keyed by everything it reads.
+ Rp presence      : optional numeric fields are tested with `is None` / membership, never by truthiness (0 is a value).
 """
 import ast
 
@@ -382,5 +383,10 @@ from ..memo import rule_for as _memo_rule
 
 RULES_MEMO = ('Rm.memo', _memo_rule('C07', 'the band of another amplifier set would be used'))
 
+
+from ..presence import rule_for as _presence_rule
+
+RULES_PRESENCE = ('Rp.presence', _presence_rule('C07', 'a legal zero would be read as missing'))
+
 RULES = [('R1.construction', r1_construction), ('R2.mux', r2_mux), ('R3.filter', r3_filter), ('R4.multiband', r4_multiband),
-         ('R5.carriers', r5_carriers), ('R6.in-band', r6_in_band), RULES_MEMO]
+         ('R5.carriers', r5_carriers), ('R6.in-band', r6_in_band), RULES_MEMO, RULES_PRESENCE]
